@@ -68,7 +68,7 @@ def state_check(sd, hist):
     t = reps.get("tree")
     if isinstance(t, tuple) and t[0] == "tree":
         tn = set(n for _, n in t[1]) - {"t"}
-        if tn != live:
+        if tn != set(x.strip() for x in live):   # tree() is text: leading / trailing blanks of a name cannot be told apart there
             v.append(((PROP + ".component-set", "tree", last), "tree() shows %r, live %r" % (sorted(tn), sorted(live))))
     dg = reps.get("diag")
     if isinstance(dg, tuple) and dg[0] == "diag" and set(dg[1]) != live:
